@@ -1126,7 +1126,7 @@ func Pair(w *load.World, c *core.Collector) {
 					for _, bb := range f.Blocks {
 						for _, ii := range bb.Instrs {
 							if sc, ok := ii.(*ssa.Call); ok {
-								if sg := sc.Call.StaticCallee(); sg != nil && load.FnKey(sg) == "shard/pointstore.DeletePoint" && ssax.Precedes(in, ii) {
+								if sg := sc.Call.StaticCallee(); sg != nil && load.FnKey(sg) == "shard/pointstore.DeletePoint" && (ssax.Precedes(in, ii) || ssax.Precedes(ii, in)) {
 									pa, _ := ssax.Path(call.Call.Args[1])
 									pb, _ := ssax.Path(sc.Call.Args[2])
 									if pa == pb {
